@@ -40,7 +40,7 @@ func buildC12(tier string, seed int64) *Family {
 	cfg := docCfg{N: 4, A: 1, Names: "a,b", Pool: ",1"}
 	nSeed := 50
 	if tier == "thorough" {
-		cfg = docCfg{N: 5, A: 2, Names: "a,b", Pool: ",1"}
+		cfg = docCfg{N: 5, A: 1, Names: "a,b", Pool: ",1"}
 		nSeed = 500
 	}
 	var insts []*vm.Instance
